@@ -210,7 +210,7 @@ pub fn check(c: &Case) -> Outcome {
 /// mildly stiff linear problems (rates up to 1e4) to force BDF order/step changes and Radau rejections
 fn stiffish_spec(nmax: usize) -> BoxedStrategy<ProbSpec> {
     (warp(0.5, 4.0), proptest::collection::vec((fr(0.0, 4.0), fr(0.2, 2.0)), 1..=nmax), mix(nmax))
-        .prop_map(|(warp, v, mix)| ProbSpec { blocks: v.into_iter().map(|(e, u0)| Block::Real { lam: -(10f64.powf(e)), u0 }).collect(), warp, mix })
+        .prop_map(|(warp, v, mix)| ProbSpec { blocks: v.into_iter().map(|(e, u0)| Block::Real { lam: -(10f64.powf(e)), u0 }).collect(), warp, mix, mag2: 0 })
         .boxed()
 }
 
